@@ -89,9 +89,11 @@ def make_store(rng, nested=True, attrdict=False, keys=None, values="int"):
         leaves += [["c", ["i", "n"], [step(kn), "p"], [step(kp), k]] for k in "uv"]
         leaves += [["c", ["i", "l"], ["i", i]] for i in range(3)]
         conts += [["c", ["i", "n"], [step(kn), "p"]], ["c", ["i", "l"]]]
-    spec = [["c", {"kind": "dict", "items": c_items}],
+    # how the top-level container is handed to the manager: Manager.ref, Manager.refattr (attribute access becomes item
+    # access) or Manager.newenv (DepEnv proxy); only dict containers can take the last two
+    spec = [["c", {"kind": "dict", "items": c_items, "root": rng.choice(["ref", "ref", "refattr", "env"])}],
             ["g", {"kind": "attrdict" if attrdict else "obj", "items": leafs("qr")}],
-            ["f", {"kind": "dict", "items": [["sum", "FunSum"]]}]]
+            ["f", {"kind": "dict", "items": [["sum", "FunSum"]], "root": rng.choice(["ref", "ref", "refattr"])}]]
     leaves += [["g", ["a", "q"]], ["g", ["a", "r"]]]
     return spec, leaves, conts
 
@@ -104,6 +106,8 @@ def gen_expr(rng, pool, conts, depth=0):
         return ["callsum", ["f", ["i", "sum"]], rng.choice(conts)]
     if k < 0.35 or depth >= 2:
         return ["ref", rng.choice(pool)]
+    if k < 0.42:         # an attribute of an expression's value: an AttrRef whose owner is an expression node
+        return ["proj", rng.choice(["real", "imag", "numerator", "denominator"]), gen_expr(rng, pool, conts, depth + 1)]
     if k < 0.6:
         a = ["ref", rng.choice(pool)]
         b = ["const", rng.randint(-5, 5)]
@@ -117,6 +121,9 @@ FAULT_KINDS = ["Fault"] * 6 + ["StopIteration", "StopIteration", "KeyError", "Va
                                 "ZeroDivisionError", "RecursionError", "BaseFault", "GeneratorExit", "StopAsyncIteration"]
 
 
+ROUTES = ["sv", "sv", "item", "item", "env", "envattr"]      # set_value(ref, v) | owner[key] = v / owner.key = v | DepEnv proxy
+
+
 def gen_history(rng, profile="mixed", nops=None, nofun=False, attrdict=False, keys="auto", values="int"):
     """keys: None | "strings" | "exotic" | "auto" (one history in four uses the "strings" pool); values: "int" | "mixed"."""
     if keys == "auto":
@@ -126,6 +133,7 @@ def gen_history(rng, profile="mixed", nops=None, nofun=False, attrdict=False, ke
     rank = list(leaves)
     rng.shuffle(rank)
     hot = rank[:3]            # "windows": a few low-ranked locations that are assigned again and again
+    used_id = lambda p: False
     pos = {json.dumps(p): i for i, p in enumerate(rank)}
     nops = nops or rng.randint(3, 14)
     ops = []
@@ -184,18 +192,43 @@ def gen_history(rng, profile="mixed", nops=None, nofun=False, attrdict=False, ke
         elif k < 0.90 and pool and profile not in ("flat",) and not nofun:
             funs += 1
             srcs = [rng.choice(pool)]
-            ops.append(["regfun", f"fn{funs}", [t], srcs, [[t, ["bin", "+", ["ref", srcs[0]], ["const", rng.randint(1, 3)]]]]])
+            # the task id is a name or the (first) target itself - only when that location never identified a task before
+            # (registering a second task under a live id is a misuse outside every property)
+            fid = f"fn{funs}" if rng.random() < 0.6 or used_id(t) else {"ref": t}
+            tgs = [t]
+            if rng.random() < 0.4:                                        # a second target
+                above = [p for p in leaves if pos[json.dumps(p)] > pos[json.dumps(srcs[0])] and p != t]
+                if above:                                                 # ranked above the source: the data flow stays acyclic
+                    tgs.append(rng.choice(above))
+            ops.append(["regfun", fid, tgs, srcs,
+                        [[x, ["bin", "+", ["ref", srcs[0]], ["const", rng.randint(1, 3) + j]]] for j, x in enumerate(tgs)]])
         elif k < 0.93 and pool and profile not in ("flat", "fault") and not nofun:
             funs += 1
             tg = [p for p in leaves if p != pool[0]][:]
             rng.shuffle(tg)
-            ops.append(["regknob", f"kn{funs}", pool[0], [[rng.randint(1, 3), p] for p in tg[:rng.randint(1, 3)]]])
+            kid = f"kn{funs}" if rng.random() < 0.6 or used_id(tg[0]) else {"ref": tg[0]}
+            ops.append(["regknob", kid, pool[0], [[rng.randint(1, 3), p] for p in tg[:rng.randint(1, 3)]]])
         elif k < 0.95 and pool and keys != "exotic":        # numpy / enum keys do not print as loadable text
             ops.append(["load", [[t, gen_expr(rng, pool, [])], [rng.choice(leaves), gen_expr(rng, pool, [])]], rng.random() < 0.6])
         elif k < 0.97:
             ops.append([rng.choice(["refresh", "verify", "cleanup"])])
         elif funs:
             ops.append(["unregister", ["$task", rng.choice(["fn", "kn"]) + str(rng.randint(1, funs))]])
+    # ref-identified function / knob tasks registered on a location that an EARLIER operation may have defined: back to names
+    seen = set()
+    for n, op in enumerate(ops):
+        if op[0] in ("regfun", "regknob") and isinstance(op[1], dict):
+            if json.dumps(op[1]["ref"]) in seen:
+                op[1] = ("fn" if op[0] == "regfun" else "kn") + "x" + str(n)
+            else:
+                seen.add(json.dumps(op[1]["ref"]))
+        elif op[0] in ("set", "inplace"):
+            seen.add(json.dumps(op[1]))
+        elif op[0] == "load":
+            seen.update(json.dumps(p) for p, _ in op[1])
+    for op in ops:
+        if op[0] == "set" and len(op) == 3:
+            op.append(rng.choice(ROUTES))          # the route is part of the case (replayable); the model ignores it
     return {"store": spec, "ops": ops}
 
 
@@ -252,6 +285,9 @@ class Emit:
             return f"(EBin {o} {self.expr(e[2])} {self.expr(e[3])})"
         if k == "callsum":
             return f"(ECallSum {self.path(e[1])} {self.path(e[2])})"
+        if k == "proj":
+            pk = {"real": "PReal", "imag": "PImag", "numerator": "PNum", "denominator": "PDen"}[e[1]]
+            return f"(EProj {pk} {self.expr(e[2])})"
         raise ValueError(e)
 
     def task_orders(self, obs, tid):
@@ -278,15 +314,15 @@ class Emit:
             return (f"MInPlace {self.path(op[1])} {o} {cz(op[3])} {self.paths(dord)} {self.paths(tord)} "
                     f"{self.paths(obs.get('sd_order', []))} {self.paths(obs.get('start_order', []))}")
         if k == "regfun":
-            tid = ["$task", op[1]]
-            dord, tord = self.task_orders(obs, tid)
+            tid = ["$task", op[1]] if isinstance(op[1], str) else op[1]["ref"]
+            dord, tord = self.task_orders(obs, tid if tid[0] == "$task" else flat(tid))
             if not tord and not dord:
                 dord, tord = [flat(p) for p in op[3]], [flat(p) for p in op[2]]
             ws = clist([f"({self.path(p)}, {self.expr(e)})" for p, e in op[4]])
             return f"MRegister (mkTask {self.path(tid)} {self.paths(tord)} {self.paths(dord)} (AFun {ws}))"
         if k == "regknob":
-            tid = ["$task", op[1]]
-            dord, tord = self.task_orders(obs, tid)
+            tid = ["$task", op[1]] if isinstance(op[1], str) else op[1]["ref"]
+            dord, tord = self.task_orders(obs, tid if tid[0] == "$task" else flat(tid))
             if not tord and not dord:
                 dord, tord = [flat(op[2])], [flat(p) for _, p in op[3]]
             ws = clist([f"({cz(w)}, {self.path(p)})" for w, p in op[3]])
